@@ -237,7 +237,8 @@ class Hub:
         self.case = case
         self.mons: list = []
         self.dispatch: dict[int, list] = {}
-        self.cur_ns = 0
+        self.base_ns = int(case.get("base_ns", 0))  # clock origin (Simulation start_time)
+        self.cur_ns = self.base_ns
         self._seen: set = set()
         self.n_instants = 0
         self.n_deliveries = 0
@@ -578,7 +579,7 @@ class QRMon:
         pat = a.get("patience")
         if pat is None:
             pat = self.spec.get("default_patience")
-        waited = t - ns(a["t"])
+        waited = t - (self.hub.base_ns + ns(a["t"]))
         should = pat is not None and waited > ns(pat)
         self.hub.res.count("patience_checks")
         if should != reneged:
@@ -1301,7 +1302,8 @@ def run_pipeline(case: dict) -> Result:
         heads[h] = nxt
     inj, null, caller = Injector(), Null("null"), Caller()
     entities += [inj, null, caller]
-    sim = Simulation(entities=entities)
+    B = hub.base_ns
+    sim = Simulation(entities=entities, start_time=Instant(B)) if B else Simulation(entities=entities)
     # arrivals
     n_arr = 0
     for a in case["arrivals"]:
@@ -1310,13 +1312,13 @@ def run_pipeline(case: dict) -> Result:
             if k_src in a:
                 md[k_dst] = a[k_src]
         if "dl" in a:
-            md["dl"] = ns(max(0, a["dl"]))
+            md["dl"] = B + ns(max(0, a["dl"])) + a.get("dlns", 0)  # absolute ns; a few ns apart within one tick
         if "ptime" in a:
             md["processing_time"] = a["ptime"] * TICK_S
         ctx = {"metadata": md}
         if a.get("patience") is not None:
             ctx["patience_s"] = a["patience"] * TICK_S
-        t = Instant(ns(a["t"]))
+        t = Instant(B + ns(a["t"]))
         head = heads[a.get("hops", 0)]
         if a.get("via", "pre") == "inj":
             ctx["created_at"] = t
@@ -1330,19 +1332,19 @@ def run_pipeline(case: dict) -> Result:
     for c in case.get("cancels", []):
         tk, cid = c[0], c[1]
         hops = c[2] if len(c) > 2 else 0
-        sim.schedule(Event(time=Instant(ns(tk)), event_type="Cancel", target=caller, context={"fn": (lambda i=cid: hub.cancel(i)), "hops": hops}))
+        sim.schedule(Event(time=Instant(B + ns(tk)), event_type="Cancel", target=caller, context={"fn": (lambda i=cid: hub.cancel(i)), "hops": hops}))
     for tk in case.get("keepalive", []):
-        sim.schedule(Event(time=Instant(ns(tk)), event_type="Tick", target=null))
+        sim.schedule(Event(time=Instant(B + ns(tk)), event_type="Tick", target=null))
     for m in mons:
         if isinstance(m, GateMon):
             sim.schedule(m.comp.start_events())
             for tk, cmd in m.spec.get("cmds", []):
                 fn = m.comp.open if cmd == "open" else m.comp.close
-                sim.schedule(Event(time=Instant(ns(tk)), event_type="Cmd", target=caller, context={"fn": fn}))
+                sim.schedule(Event(time=Instant(B + ns(tk)), event_type="Cmd", target=caller, context={"fn": fn}))
         if isinstance(m, QRMon) and m.spec.get("model") == "dynamic":
             model = m.comp.concurrency_model
             for tk, new in m.spec.get("limit_changes", []):
-                sim.schedule(Event(time=Instant(ns(tk)), event_type="Cmd", target=caller, context={"fn": (lambda mm=model, v=new: mm.set_limit(v))}))
+                sim.schedule(Event(time=Instant(B + ns(tk)), event_type="Cmd", target=caller, context={"fn": (lambda mm=model, v=new: mm.set_limit(v))}))
     sim.control.on_event(hub.on_event)
     sim.control.on_time_advance(hub.on_advance)
     cap = 400 + 60 * n_arr
@@ -1358,6 +1360,8 @@ def run_pipeline(case: dict) -> Result:
         if iid in seen:
             hub.add("completed-twice", mons[-1].cls, "sink-saw-id-twice", f"id {iid} at t={t}ns")
         seen.add(iid)
+    if hub.base_ns:
+        res.count("pipeline_cases_at_huge_absolute_time")
     res.count("events_monitored", hub.n_deliveries)
     res.count("offers", sum(m.offers for m in mons))
     res.count("completed_at_sink", len(sink.log))
@@ -1390,6 +1394,7 @@ def gen_arrivals(rng: random.Random, n: int, horizon: int) -> list:
             "via": rng.choice(["pre", "pre", "inj"]),
             "prio": rng.choice([0, 0, 1, 2, 3]),
             "dl": t + rng.choice([0, 1, 2, 4, 8, 30]),
+            "dlns": rng.choice([0, 0, 0, 1, 2, 3, 5, 8, 24, 40, 100]),
             "flow": f"f{rng.choice([0, 0, 1, 2])}",
             "weight": rng.choice([1, 1, 1, 2, 3]),
             "ptime": rng.choice([0, 1, 1, 2, 4]),
@@ -1399,6 +1404,9 @@ def gen_arrivals(rng: random.Random, n: int, horizon: int) -> list:
         out.append(a)
     return out
 
+
+# 1e7 s, 2**53 ns, 1e9 s, "now" as a Unix time; odd ns so that nothing is a round float
+BIG_ORIGINS_NS = (10**16 + 1, 2**53 + 3, 10**18 + 7, 1_700_000_000_123_456_789)
 
 PIPE_POLICY_KINDS = ("fifo", "fifo", "fifo", "lifo", "prio", "deadline", "fair", "wfq", "alifo", "codel", "red")
 
@@ -1488,5 +1496,10 @@ def gen_case(rng: random.Random, kinds, topo="single") -> dict:
             a = rng.choice(arrivals)
             cancels.append([a["t"] + rng.choice([0, 0, 1, 1, 2, 3, 4, 6, 8]), a["id"], rng.choice([0, 0, 0, 1, 2, 4])])
         cancels.sort()
+    base_ns = 0
+    if not any(st["kind"] in ("shifted", "gate") for st in stages) and rng.random() < 0.3:
+        # huge absolute times: float seconds can no longer tell neighbouring nanoseconds apart
+        # (ShiftedServer / GateController take absolute float-second schedules: kept at origin 0)
+        base_ns = rng.choice(BIG_ORIGINS_NS)
     ka = sorted({rng.randrange(0, horizon + 30) for _ in range(rng.choice([0, 1, 3, 6]))} | {horizon + 40})
-    return {"topo": topo, "stages": stages, "arrivals": arrivals, "cancels": cancels, "keepalive": ka, "seed": rng.randrange(1 << 30)}
+    return {"topo": topo, "stages": stages, "arrivals": arrivals, "cancels": cancels, "keepalive": ka, "base_ns": base_ns, "seed": rng.randrange(1 << 30)}
